@@ -21,6 +21,25 @@ def run_tables(rep, prop):
             if isinstance(t, Types.OneOf):
                 key = tuple(t.valid)
                 seen.setdefault(key, f"{n}.{attr}")
+    # class-level declarations that every construction iterates over must be containers that can be iterated again and
+    # again (a generator or an iterator there would be used up by the first instance)
+    for n in sorted(dir(m)):
+        C = getattr(m, n)
+        if not (isinstance(C, type) and issubclass(C, Aggregate) and n.isupper()):
+            continue
+        for attr in ("optionalMutexes", "requiredMutexes"):
+            for k in C.__mro__:
+                if attr in vars(k):
+                    v = vars(k)[attr]
+                    full = f"{prop}/table:{n}.{attr}/re-iterable"
+                    ok = isinstance(v, (list, tuple)) and all(isinstance(g, (list, tuple)) and all(isinstance(x, str) for x in g) for g in v)
+                    if ok:
+                        rep.ok(full, "enumeration", 0.0, "top", f"ofxtools.models:{n}.{attr}")
+                    else:
+                        rep.fail(full, "enumeration", f"{k.__name__}.{attr} is a {type(v).__name__}, not a list of lists of names", 0.0, "top", f"ofxtools.models:{n}.{attr}")
+                        rep.violation(full, {"class": n, "declared_in": k.__name__, "attribute": attr, "type": type(v).__name__,
+                                             "python": f"import sys\nimport ofxtools.models as m\nv = [vars(k)[{attr!r}] for k in m.{n}.__mro__ if {attr!r} in vars(k)][0]\nsys.exit(0 if isinstance(v, (list, tuple)) and all(isinstance(g, (list, tuple)) for g in v) else 17)\n"})
+                    break
     rep.extra["enumeration_tables"] = len(seen)
     for toks, where in seen.items():
         full = f"{prop}/table:{where}/tokens-well-formed"
